@@ -688,3 +688,105 @@ def check_format_args(chk, units, rule="F1"):
                                   f.name, text[:60], need, have),
                        proof="%d conversion(s), %d argument(s)" % (need, have))
     return n
+
+
+def check_release_refill(chk, unit, rule="L4"):
+    """A table entry's field that is released (FREE(T[i].f)) is filled again on every path that follows, at the same entry:
+    readers of the table walk all entries and use the field unconditionally, so an entry left without it is a NULL
+    dereference waiting for the next lookup (re-registering the catch-all "null" context)."""
+    n = 0
+    for f in unit.functions.values():
+        if re.search(r"free_subsystem|_free_", f.name):
+            continue
+        cfg = None
+        for c in X.calls_in(f.body):
+            if own.release_kind(c) != "free" or not c["ch"][1:]:
+                continue
+            a = X.strip(c["ch"][1])
+            if a is None or a.get("k") != "member":
+                continue
+            b = X.strip(a["ch"][0])
+            if b.get("k") != "index" or glob_ref(b["ch"][0]) is None:
+                continue
+            n += 1
+            cfg = cfg or nullness.prepared_cfg(f, NORETURN)
+            key = canon(f, a)
+            refills = [x for x in walk(f.body) if x.get("k") == "assign" and x.get("op") == "=" and canon(f, x["ch"][0]) == key
+                       and not X.is_null_const(x["ch"][1]) and x["i"] != c.get("i")]
+            # FREE() itself stores NULL into its argument: that store is part of the release
+            ok = any(cfg.node_dominates(c["i"], x["i"]) for x in refills)
+            others = [x for x in walk(f.body) if x.get("k") == "assign" and x.get("op") == "=" and X.strip(x["ch"][0]).get("k") == "member"
+                      and X.strip(x["ch"][0]).get("n") == a.get("n") and canon(f, x["ch"][0]) != key]
+            # the contradiction reported: the field of one entry is released and then the same field of ANOTHER entry is filled
+            # (an entry that is simply dropped afterwards - popped off its stack - is not this rule's business)
+            def reaches(a_id, b_id):
+                ba = [b_ for b_, bl in cfg.blocks.items() if a_id in bl.el]
+                bb = [b_ for b_, bl in cfg.blocks.items() if b_id in bl.el]
+                if not ba or not bb:
+                    return False
+                if ba[0] == bb[0]:
+                    return cfg.blocks[ba[0]].el.index(a_id) < cfg.blocks[ba[0]].el.index(b_id)
+                seen_, work_ = {ba[0]}, [ba[0]]
+                while work_:
+                    cur_ = work_.pop()
+                    for s_, _, _ in cfg.edges(cur_):
+                        if s_ == bb[0]:
+                            return True
+                        if s_ not in seen_:
+                            seen_.add(s_)
+                            work_.append(s_)
+                return False
+            others = [x for x in others if reaches(c["i"], x["i"])]
+            # a store whose index is a local that holds, on every path from the release, the released entry's constant index
+            # is a refill of that entry (id = 0; ...; T[id].f = ..)
+            rel_idx = X.const_val(b["ch"][1])
+            if rel_idx is not None and others:
+                def step_(state, x_):
+                    if x_.get("k") == "assign" and x_.get("op") == "=":
+                        l_ = X.strip(x_["ch"][0])
+                        if l_.get("k") == "ref" and l_.get("rk") == "local":
+                            st_ = frozenset(t for t in state if t[1] != l_["d"])
+                            cv_ = X.const_val(x_["ch"][1])
+                            return st_ | ({("val", l_["d"], cv_)} if cv_ is not None else set())
+                    return state
+                # forward from the release only (paths that do not pass the release are not this rule's business)
+                rb = [b2 for b2, bl in cfg.blocks.items() if c["i"] in bl.el][0]
+                ins_ = {}
+                st0 = frozenset()
+                els = cfg.blocks[rb].el
+                for e_ in els[els.index(c["i"]) + 1:]:
+                    nd_ = f.nodes.get(e_)
+                    if nd_ is not None:
+                        st0 = step_(st0, nd_)
+                work_ = []
+                for s_, _, _ in cfg.edges(rb):
+                    ins_[s_] = st0
+                    work_.append(s_)
+                same = []
+                seen_store = {}
+                while work_:
+                    cur_ = work_.pop()
+                    st_ = ins_[cur_]
+                    for e_ in cfg.blocks[cur_].el:
+                        nd_ = f.nodes.get(e_)
+                        if nd_ is None:
+                            continue
+                        if any(nd_ is o for o in others):
+                            ix_ = X.strip(X.strip(X.strip(nd_["ch"][0])["ch"][0])["ch"][1])
+                            seen_store[nd_["i"]] = seen_store.get(nd_["i"], True) and (ix_.get("k") == "ref" and ("val", ix_.get("d"), rel_idx) in st_)
+                        st_ = step_(st_, nd_)
+                    for s_, _, _ in cfg.edges(cur_):
+                        new_ = st_ if s_ not in ins_ else (ins_[s_] & st_)
+                        if s_ not in ins_ or new_ != ins_[s_]:
+                            ins_[s_] = new_
+                            work_.append(s_)
+                same = [x for x in others if seen_store.get(x["i"])]
+                if same:
+                    ok = True
+                others = [x for x in others if not any(x is y for y in same)]
+            ok = ok or not others
+            chk.ob(rule, f.name, "released-entry-refilled:" + key[:40], ok, loc=f.loc(c),
+                   detail="%s releases %s and never stores a new value into that same entry afterwards%s: the entry keeps a NULL %s, and the "
+                          "table's readers use it unconditionally" % (f.name, X.render(a)[:40], (" (it stores into %s instead)" % X.render(others[0]["ch"][0])[:40]) if others else "", a.get("n")),
+                   proof="a store to the same entry follows the release on every path")
+    return n
